@@ -21,7 +21,7 @@ def seeded_mutants(ids):
         m = json.load(open(d))
         if ids and m["id"] not in ids and m["property"] not in ids:
             continue
-        out.append({"id": "seeded:" + m["id"], "check": m["property"], "what": m["needs_to_manifest"][:90],
+        out.append({"id": "seeded:" + m["id"], "check": m.get("check", m["property"]), "what": m["needs_to_manifest"][:90],
                     "expect": "equivalent" if m.get("expect") == "not-a-violation" else "detected",
                     "patch": os.path.join(os.path.dirname(d), "patch.diff")})
     return out
